@@ -717,7 +717,7 @@ def fill_cases(ctx):
                 for vl in (1, 2, 5, 20):
                     for wide in (False, True):
                         i += 1
-                        if (zlib.crc32(b'%d' % i) % 4 != rot) if ctx.quick else (i % ctx.nshards != ctx.shard):
+                        if ctx.quick and zlib.crc32(b"%d" % i) % 4 != rot:  # thorough: every shard runs the whole family
                             continue
                         yield fill_build(kind, slack, n, vl, wide, i % 5, [0, 0] if i % 3 else [1, 1])
 
